@@ -2652,9 +2652,10 @@ class quantized_sigmoid(base_quantizer.BaseQuantizer):  # pylint: disable=invali
 
   def __str__(self):
     flags = [str(self.bits)]
-    if self.symmetric:
+    if (self.symmetric or self.use_real_sigmoid or
+        self.use_stochastic_rounding):
       flags.append(str(int(self.symmetric)))
-    if self.use_real_sigmoid:
+    if self.use_real_sigmoid or self.use_stochastic_rounding:
       flags.append(str(int(self.use_real_sigmoid)))
     if self.use_stochastic_rounding:
       flags.append(str(int(self.use_stochastic_rounding)))
